@@ -226,6 +226,22 @@ class Level(enum.IntEnum):
   HIGH = 2
 
 
+class Rank(enum.IntEnum):
+  """Members are == (and hash-equal) to Level's: a cache keyed by the value confuses them."""
+  FIRST = 1
+  SECOND = 2
+
+
+class StrA(str, enum.Enum):
+  NONE = 'none'
+  SOME = 'some'
+
+
+class StrB(str, enum.Enum):
+  NONE = 'none'
+  ALL = 'all'
+
+
 def tagged_fn(a: Annotated[Any, _tags.TagA] = 'ta', b: Annotated[Any, _tags.TagB] = 'tb',
               c=None, *, k: Annotated[Any, _tags.TagA2] = 'tk'):
   return _r.rec('tagged_fn', locals())
